@@ -1,4 +1,138 @@
-import PyhfModel.Tensor
-/-! # C01 — placeholder until the theorems are in place -/
+import PyhfProofs.Lemmas.EngineAD
+/-!
+# C01 — expected event rates follow the HistFactory rate formula
+
+`expectedActual` is the tensor-level model **T** of `Model.expected_actualdata` (mega-channel tables,
+masks, gather indices — `PyhfModel/Tensor.lean`); `D.expected` is the declarative rate formula
+(`PyhfModel/Decl.lean`).  Number type: `ℝ` with `Real.rpow/log` (`realPrim`).
+-/
 namespace Pyhf.Props.C01
+open Pyhf
+
+/-- **Main theorem.**  For every specification accepted by model construction whose histosys variations
+have their channel's bin count, whose bin-wise modifiers have one component per bin, with at most one
+(scalar) luminosity parameter, and with per-sample clipping absent or non-positive: for every
+interpolation-code setting and every parameter vector `θ`, the expected rates computed the way the code
+computes them equal, bin by bin and in the channel order the configuration reports,
+`clip_bin (Σ_{samples of the channel} clip_sample ((Π factors of declared multiplicative modifiers) ·
+(nominal + Σ shifts of declared additive modifiers)))`, every parameter read through the slice of the
+parameter set the modifier is named after. -/
+theorem C01_expected_eq_formula (s : Spec ℝ) (st : Settings ℝ) (m : Model ℝ)
+    (hbuild : buildModel realPrim s st = .ok m)
+    (hhisto : histoBlocksOK s (mkConfig s) = true)
+    (hbin : binwiseOK m = true) (hlumi : singleLumi m = true) (hcov : singularCovers m = true)
+    (hclip : clipSampleNonPos m = true) (θ : List ℝ) :
+    expectedActual realPrim m (parOf θ) = D.expected realPrim m (parOf θ) :=
+  expectedActual_eq_D m
+    (shape_of_built realPrim s st m (buildModel_built realPrim s st m hbuild) hhisto)
+    ⟨hbin, hlumi, hcov, hclip⟩ (parOf θ)
+
+/-- the same for one row of a batched evaluation (`parOfRow`: flat index `t·npars + i`) -/
+theorem C01_expected_eq_formula_batched (s : Spec ℝ) (st : Settings ℝ) (m : Model ℝ)
+    (hbuild : buildModel realPrim s st = .ok m)
+    (hhisto : histoBlocksOK s (mkConfig s) = true)
+    (hbin : binwiseOK m = true) (hlumi : singleLumi m = true) (hcov : singularCovers m = true)
+    (hclip : clipSampleNonPos m = true) (rows : List (List ℝ)) (t : Nat) :
+    expectedActual realPrim m (parOfRow m.npars rows t) = D.expected realPrim m (parOfRow m.npars rows t) :=
+  expectedActual_eq_D m
+    (shape_of_built realPrim s st m (buildModel_built realPrim s st m hbuild) hhisto)
+    ⟨hbin, hlumi, hcov, hclip⟩ _
+
+/-- **Layout.**  The formula's output is the concatenation over `config.channels` (in that order) of one
+block of `channel_nbins[c]` rates per channel. -/
+theorem C01_layout (P : Prim ℝ) (m : Model ℝ) (par : Nat → ℝ) :
+    D.expected P m par =
+      m.cfg.channels.zipIdx.flatMap fun ch => (List.range (m.cfg.nbOf ch.1)).map (D.binRate P m par ch) := rfl
+
+theorem C01_layout_length (P : Prim ℝ) (m : Model ℝ) (par : Nat → ℝ) :
+    (D.expected P m par).length = (m.cfg.channels.map m.cfg.nbOf).sum := by
+  have : D.expected P m par = pw m.nb (D.binRate P m par) m.chans := rfl
+  rw [this, pw_length]
+  unfold Model.chans Model.nb
+  rw [map_zipIdx_fst]
+
+/-- **Structural half, any number type**: the mega-channel computation is block-structured and equals the
+per-bin masked formula `totalP` (no algebraic laws used). -/
+theorem C01_blocks {K : Type} [Add K] [Sub K] [Mul K] [Div K] [Neg K] [OfNat K 0] [OfNat K 1]
+    [OfScientific K] [LT K] [LE K] [DecidableLT K] [DecidableLE K] [BEq K]
+    (P : Prim K) (s : Spec K) (st : Settings K) (m : Model K) (hbuild : buildModel P s st = .ok m)
+    (hhisto : histoBlocksOK s (mkConfig s) = true) (par : Nat → K) :
+    expectedActual P m par = pw m.nb (totalP P m par) m.chans :=
+  expectedActual_pw P m (shape_of_built P s st m (buildModel_built P s st m hbuild) hhisto) par
+
+/-- **Per-sample output** (`return_by_sample=True`): each sample's row is block-structured too. -/
+theorem C01_by_sample {K : Type} [Add K] [Sub K] [Mul K] [Div K] [Neg K] [OfNat K 0] [OfNat K 1]
+    [OfScientific K] [LT K] [LE K] [DecidableLT K] [DecidableLE K] [BEq K]
+    (P : Prim K) (s : Spec K) (st : Settings K) (m : Model K) (hbuild : buildModel P s st = .ok m)
+    (hhisto : histoBlocksOK s (mkConfig s) = true) (par : Nat → K) :
+    expectedBySample P m par = m.cfg.samples.map fun sm => pw m.nb (sampleP P m par sm) m.chans := by
+  unfold expectedBySample
+  apply List.map_congr_left
+  intro sm hsm
+  exact sampleVec_pw P m (shape_of_built P s st m (buildModel_built P s st m hbuild) hhisto) par sm hsm
+
+/-- a sample present in a channel contributes exactly its declarative rate there -/
+theorem C01_present_sample_rate (s : Spec ℝ) (st : Settings ℝ) (m : Model ℝ)
+    (hbuild : buildModel realPrim s st = .ok m) (hhisto : histoBlocksOK s (mkConfig s) = true)
+    (hbin : binwiseOK m = true) (hlumi : singleLumi m = true) (hcov : singularCovers m = true)
+    (hclip : clipSampleNonPos m = true) (par : Nat → ℝ)
+    (ch : Chan) (hch : ch ∈ m.chans) (sm : String) (hsm : sm ∈ m.cfg.samples) (x : Sample ℝ)
+    (hf : findSample m.spec ch.1 sm = some x) (b : Nat) (hb : b < m.cfg.nbOf ch.1) :
+    sampleP realPrim m par sm ch b = clip1 m.settings.clipSample (D.sampleRate realPrim m par x ch b) :=
+  sampleP_present m (shape_of_built realPrim s st m (buildModel_built realPrim s st m hbuild) hhisto)
+    ⟨hbin, hlumi, hcov, hclip⟩ par ch hch sm hsm x hf b hb
+
+/-- **Absent samples are untouched**: a sample not present in a channel contributes zero to every bin of it. -/
+theorem C01_absent_sample_zero (s : Spec ℝ) (st : Settings ℝ) (m : Model ℝ)
+    (hbuild : buildModel realPrim s st = .ok m) (hhisto : histoBlocksOK s (mkConfig s) = true)
+    (hbin : binwiseOK m = true) (hlumi : singleLumi m = true) (hcov : singularCovers m = true)
+    (hclip : clipSampleNonPos m = true) (par : Nat → ℝ)
+    (ch : Chan) (sm : String) (hf : findSample m.spec ch.1 sm = none) (b : Nat) (hb : b < m.cfg.nbOf ch.1) :
+    sampleP realPrim m par sm ch b = 0 :=
+  sampleP_absent m (shape_of_built realPrim s st m (buildModel_built realPrim s st m hbuild) hhisto)
+    ⟨hbin, hlumi, hcov, hclip⟩ par ch sm hf b hb
+
+/-- **Undeclared modifiers are neutral**: on a sample that does not declare `(n, t)` the modifier's factor is
+`1` in every bin of the channel, whatever the parameter values. -/
+theorem C01_undeclared_factor_neutral (s : Spec ℝ) (st : Settings ℝ) (m : Model ℝ)
+    (hbuild : buildModel realPrim s st = .ok m) (hhisto : histoBlocksOK s (mkConfig s) = true) (par : Nat → ℝ)
+    (ch : Chan) (hch : ch ∈ m.chans) (sm : String) (hsm : sm ∈ m.cfg.samples) (x : Sample ℝ)
+    (hf : findSample m.spec ch.1 sm = some x) (b : Nat) (hb : b < m.cfg.nbOf ch.1)
+    (n : String) (t : ModType) (hnone : findMod x n t = none) :
+    factorP realPrim m par n t sm ch b = 1 := by
+  have hs := shape_of_built realPrim s st m (buildModel_built realPrim s st m hbuild) hhisto
+  simp [factorP, maskP_present m hs ch hch sm hsm x hf b hb n t, hnone]
+
+/-- … and an undeclared additive modifier shifts nothing. -/
+theorem C01_undeclared_shift_zero (s : Spec ℝ) (st : Settings ℝ) (m : Model ℝ)
+    (hbuild : buildModel realPrim s st = .ok m) (hhisto : histoBlocksOK s (mkConfig s) = true) (par : Nat → ℝ)
+    (ch : Chan) (hch : ch ∈ m.chans) (sm : String) (hsm : sm ∈ m.cfg.samples) (x : Sample ℝ)
+    (hf : findSample m.spec ch.1 sm = some x) (b : Nat) (hb : b < m.cfg.nbOf ch.1)
+    (n : String) (hnone : findMod x n .histosys = none) :
+    deltaP m par n sm ch b = 0 := by
+  have hs := shape_of_built realPrim s st m (buildModel_built realPrim s st m hbuild) hhisto
+  simp [deltaP, maskP_present m hs ch hch sm hsm x hf b hb n .histosys, hnone]
+
+/-- **Each factor depends only on the parameter the modifier is named after** (and on the modifier's own
+data): two parameter assignments that agree on the components of the parameter set named `md.name`
+give the same factor. -/
+theorem C01_factor_depends_only_on_named_parameter (P : Prim ℝ) (m : Model ℝ) (par par' : Nat → ℝ)
+    (md : Modifier ℝ) (ch : Chan) (b : Nat)
+    (h : ∀ i, byName m par md.name i = byName m par' md.name i) :
+    D.factor P m par md ch b = D.factor P m par' md ch b := by
+  unfold D.factor
+  cases md.type <;> simp [h]
+
+theorem C01_shift_depends_only_on_named_parameter (m : Model ℝ) (par par' : Nat → ℝ)
+    (md : Modifier ℝ) (nom : ℝ) (b : Nat)
+    (h : ∀ i, byName m par md.name i = byName m par' md.name i) :
+    D.shift m par md nom b = D.shift m par' md nom b := by
+  unfold D.shift; rw [h]
+
+/-- `byName` reads inside the slice the configuration reports for that name -/
+theorem C01_byName_in_slice (m : Model ℝ) (par : Nat → ℝ) (n : String) (i : Nat)
+    (hi : i < (sliceOf m.slices n).2 - (sliceOf m.slices n).1) :
+    ∃ k, (sliceOf m.slices n).1 ≤ k ∧ k < (sliceOf m.slices n).2 ∧ byName m par n i = par k :=
+  ⟨(sliceOf m.slices n).1 + i, by omega, by omega, rfl⟩
+
 end Pyhf.Props.C01
